@@ -185,7 +185,9 @@ func (ex *Exec) execStmt(s ast.Stmt, st *State) {
 		for _, sp := range gd.Specs {
 			vs := sp.(*ast.ValueSpec)
 			var vals []Value
-			if len(vs.Values) == 1 && len(vs.Names) > 1 {
+			if len(vs.Values) == 1 && len(vs.Names) == 2 {
+				vals = ex.evalTuple2(vs.Values[0], st)
+			} else if len(vs.Values) == 1 && len(vs.Names) > 1 {
 				vals = ex.evalMulti(vs.Values[0], st)
 			} else {
 				for _, e := range vs.Values {
@@ -253,7 +255,11 @@ func (ex *Exec) execAssign(s *ast.AssignStmt, st *State) {
 	}
 	var vals []Value
 	if len(s.Rhs) == 1 && len(s.Lhs) > 1 {
-		vals = ex.evalMulti(s.Rhs[0], st)
+		if len(s.Lhs) == 2 {
+			vals = ex.evalTuple2(s.Rhs[0], st)
+		} else {
+			vals = ex.evalMulti(s.Rhs[0], st)
+		}
 		if len(vals) != len(s.Lhs) {
 			unsupp("assignment arity %s", ex.src(s))
 		}
@@ -509,8 +515,41 @@ func (ex *Exec) execDefer(s *ast.DeferStmt, st *State) {
 }
 
 func (ex *Exec) execGo(s *ast.GoStmt, st *State) {
+	var args []Value
 	for _, a := range s.Call.Args {
-		ex.eval(a, st)
+		args = append(args, ex.eval(a, st))
+	}
+	// contract on the arguments handed to the spawned goroutine (keyed by the ordinal of the go statement)
+	if f := ex.frame(); f.fn != nil && f.fn.Con != nil && !f.lit && f.fn.Decl.Body != nil {
+		ord := -1
+		n := 0
+		ast.Inspect(f.fn.Decl.Body, func(x ast.Node) bool {
+			if g, ok := x.(*ast.GoStmt); ok {
+				if g == s {
+					ord = n
+				}
+				n++
+			}
+			return true
+		})
+		if cs := f.fn.Con.Spawns[fmt.Sprint(ord)]; len(cs) > 0 {
+			bind := map[string]Value{}
+			if lit, ok := s.Call.Fun.(*ast.FuncLit); ok {
+				i := 0
+				for _, pf := range lit.Type.Params.List {
+					for _, pn := range pf.Names {
+						if i < len(args) {
+							bind[pn.Name] = args[i]
+						}
+						i++
+					}
+				}
+			}
+			for k, c := range cs {
+				g := ex.evalClause(c, st, f.oldSt, bind)
+				ex.check(st, g, "go-requires", s, fmt.Sprintf("go%d/requires#%d", ord, k))
+			}
+		}
 	}
 	ex.note("go statement: the spawned goroutine is opaque; everything it may write is havoced at the spawn site")
 	var body ast.Node
@@ -625,9 +664,11 @@ func (ex *Exec) runLoop(n ast.Node, label string, st *State, w *writes, cond fun
 	}
 	// 2. havoc, assume invariants: arbitrary iteration
 	ex.havocWrites(w, st, false)
+	ex.assuming++
 	for _, g := range evalInvs(st) {
 		st.assume(g)
 	}
+	ex.assuming--
 	if extraInv != nil {
 		for _, g := range extraInv(st) {
 			st.assume(g)
@@ -849,8 +890,12 @@ func (ex *Exec) runLoopGhost(n ast.Node, label string, st *State, w *writes, vis
 	invs, _ := ex.loopClauses(ord)
 	site := "loop" + ord
 	bindVis := func(s *State) { f.entry["visited"] = s.ghost[vis] }
+	entrySt := st.clone()
 	evalInvs := func(s *State) []*Term {
 		bindVis(s)
+		saved := ex.loopEntry
+		ex.loopEntry = entrySt
+		defer func() { ex.loopEntry = saved }()
 		var out []*Term
 		for _, c := range invs {
 			out = append(out, ex.evalClause(c, s, f.oldSt, nil))
@@ -863,9 +908,11 @@ func (ex *Exec) runLoopGhost(n ast.Node, label string, st *State, w *writes, vis
 	ex.havocWrites(w, st, false)
 	hv := freshVar("visited", st.ghost[vis].scalar().Sort)
 	st.ghost[vis] = Value{L: map[string]*Term{"": hv}}
+	ex.assuming++
 	for _, g := range evalInvs(st) {
 		st.assume(g)
 	}
+	ex.assuming--
 	base := len(st.pc)
 	head := st.clone()
 	lc := &loopCtx{label: label}
@@ -1064,6 +1111,16 @@ func (ex *Exec) scanCall(call *ast.CallExpr, info *types.Info, w *writes, depth 
 		return // body is scanned by ast.Inspect
 	}
 	if fn == nil {
+		if id, ok := call.Fun.(*ast.Ident); ok && len(ex.frames) > 0 {
+			if f := ex.frame(); f.fn != nil && f.fn.Con != nil && len(f.fn.Con.Callbacks[id.Name]) > 0 {
+				for _, c := range f.fn.Con.Callbacks[id.Name] {
+					if c.Kind == "cb-modifies" {
+						ex.famsForModifies(f.fn, c, w)
+					}
+				}
+				return
+			}
+		}
 		// call through a function value: unknown effects on the heap reachable from arguments
 		ex.scanArgsHavoc(call, info, w)
 		return
@@ -1150,6 +1207,9 @@ func (ex *Exec) famForModExpr(e ast.Expr, info *types.Info, w *writes) {
 	case *ast.SelectorExpr:
 		if sel, ok := info.Selections[e]; ok {
 			ex.famsForSelection(info.TypeOf(e.X), sel, w)
+			if _, isMap := info.TypeOf(e).Underlying().(*types.Map); isMap {
+				w.fams["M|"+typeKey(info.TypeOf(e))+"|"] = true
+			}
 		} else if v, ok := info.Uses[e.Sel].(*types.Var); ok && v.Pkg() != nil {
 			w.globs[v.Pkg().Path()+"."+v.Name()] = v.Type()
 		}
